@@ -121,7 +121,7 @@ def generate(run_seed, prop, tier="quick"):
             op["seed"] = rng.randrange(2 ** 31)
         if kind == "repermute":
             op.update({"permute": rng.choice(["reverse", "shuffle", "shuffle"]), "relabel": rng.choice(["none", "none", "shuffle", "offset"]),
-                       "perm_seed": rng.randrange(2 ** 30)})
+                       "perm_seed": rng.randrange(2 ** 30), "beads": rng.random() < 0.5})
         if kind == "reweight":
             op.update({"seed": rng.randrange(2 ** 30), "fraction": rng.choice([0.1, 0.3, 0.6]),
                        "scale": rng.choice([1.0, 1.0, 1e-10, 1e8])})
@@ -304,8 +304,22 @@ class _Mol:
             for bead in self.aa.nodes[node].get("fragid", []):
                 self.members.setdefault(bead, []).append(node)
 
-    def repermute(self, how, seed, relabel):
+    def repermute(self, how, seed, relabel, beads=False):
         import networkx as nx
+        if beads:
+            # the coarse graph rebuilt with another node insertion order (same keys, same attribute objects)
+            import random
+            order = list(self.cg.nodes)
+            random.Random(seed + 1).shuffle(order)
+            if how == "reverse":
+                order = list(reversed(list(self.cg.nodes)))
+            new = nx.Graph()
+            new.graph.update(self.cg.graph)
+            for bead in order:
+                new.add_node(bead, **dict(self.cg.nodes[bead]))
+            for u, v, data in self.cg.edges(data=True):
+                new.add_edge(u, v, **dict(data))
+            self.cg = new
         aa, mapping = _permute(self.aa, how, seed, relabel)
         for cnode in self.cg.nodes:
             sub = self.cg.nodes[cnode].get("graph")
@@ -561,7 +575,9 @@ def run_history(scenario):
                     stats["fault:second-system-from-shallow-copy:fired"] = stats.get("fault:second-system-from-shallow-copy:fired", 0) + 1
                     event["out"] = "ok"
             elif kind == "repermute":
-                mol.repermute(op["permute"], op["perm_seed"], op["relabel"])
+                mol.repermute(op["permute"], op["perm_seed"], op["relabel"], beads=bool(op.get("beads")))
+                if op.get("beads"):
+                    stats["fault:bead-order-changed:fired"] = stats.get("fault:bead-order-changed:fired", 0) + 1
                 stats["fault:reorder-between-calls:fired"] = stats.get("fault:reorder-between-calls:fired", 0) + 1
                 event["out"] = "ok"
             elif kind == "reweight":
